@@ -5,7 +5,10 @@ Phase 0 asks the implementation how it prints the floats of the pool (`~w`), pha
 Lean model (documented writer `W`, writer-as-the-code-stands `A`, reader on both, hypotheses
 `WF` of the round-trip theorem), phase 2 runs the implementation: write_csv/2,3 to a scratch
 file under build/tmp/C51/<run>/, read the file back as characters, parse_csv//1,2 on them and on
-the model's documented text. See notes/design/C51.md.
+the model's documented text. Cases that lost their machine (timeout/abort under load) are run
+again alone; every case about to be reported is run a second time and judged on the second run
+(except the two open writer defects, recognised by the text being exactly what the model of the
+present code predicts). See notes/design/C51.md.
 """
 import os
 import re
@@ -532,6 +535,14 @@ def float_pool():
     return pool, dropped
 
 
+def transient(r):
+    """implementation results that only say the machine was lost (load), not what the library does"""
+    return (r == "missing" or r.startswith("timeout") or r.startswith("abort") or r.startswith("skipped")
+            or r.startswith("panic") or "'existence_error'('procedure','/'('parse_csv'," in r
+            or "'existence_error'('procedure','/'('write_csv'," in r
+            or "'existence_error'('procedure','/'('phrase_from_file'," in r)
+
+
 def has_str(c):
     rs = ([c["h"]] if c["wo"]["hdr"] else []) + c["rows"]
     return any(f[0] == "S" and f[1] != "" for r in rs for f in r)
@@ -581,7 +592,7 @@ def judge(c, impl, model):
         itext, iparse = as_text(xa[2][0]), "fail"
     spec_t = None if d["W"] == "fail" else dec_text(d["W"])
     asis_t = None if d["A"] == "fail" else dec_text(d["A"])
-    if wstat == "ok" and itext is not None and itext == spec_t:
+    if (wstat == "ok" and itext is not None and itext == spec_t) or (wstat == "fail" and spec_t is None):
         wclass = "documented"
     elif (wstat == "ok" and asis_t is not None and itext == asis_t) or (wstat == "fail" and asis_t is None):
         wclass = "as-is"
@@ -600,7 +611,11 @@ def judge(c, impl, model):
         if mp is not None:
             mpv = "fail" if mp == "fail" else dec_frame(mp)
             if iparse != mpv:
-                out.append(("disagreement", dict(tag, defect="reader-differs-on-written-text", impl=short(iparse), model=short(mpv)),
+                # when the frame satisfies the hypotheses of the round-trip theorem and the text is the
+                # documented one, this is the property's own oracle: the frame did not come back
+                kind = "violation" if (wf and wclass == "documented" and iparse != expected) else "disagreement"
+                out.append((kind, dict(tag, defect="reader-differs-on-written-text", impl=short(iparse), model=short(mpv)),
+                            "parse_csv on the text written by write_csv does not give the frame back" if kind == "violation" else
                             "parse_csv on the text written by write_csv differs from the model reader on the same text"))
     # --- reader on the documented text
     if spec_t is not None:
@@ -621,7 +636,12 @@ def judge(c, impl, model):
                         "parse_csv on the documented text of this frame does not give the frame back" if wf else
                         "parse_csv on the documented text differs from the model reader"))
     # --- writer
-    if wclass == "other":
+    if wclass == "other" and wf and wstat == "ok" and iparse == expected:
+        # a text the model does not predict, but the property's own oracle holds: the frame comes
+        # back. The property does not fix the text beyond that (e.g. whether a harmless string is
+        # quoted), so this is not reported.
+        c["obs"]["wclass"] = "other-roundtrip-ok"
+    elif wclass == "other":
         kind = "violation" if (wf and iparse != expected) else "disagreement"
         out.append((kind, dict(tag, defect="writer-differs", status=wstat, impl=short(itext), documented=short(spec_t), as_is=short(asis_t)),
                     "write_csv wrote neither the documented text nor what the model of the present code writes"))
@@ -646,7 +666,7 @@ def judge(c, impl, model):
 def build_cases(ctx, pool):
     rng, tier = ctx["rng"], ctx["tier"]
     cases = []
-    n = 2500 if tier == "quick" else 60000
+    n = 2500 if tier == "quick" else 40000
     mix = [("wf", 0.30), ("nostr", 0.20), ("odd", 0.15), ("mixed", 0.07), ("raw", 0.28)]
     for k, (txt, ro) in enumerate(FIXED_RAW):
         cases.append({"kind": "raw", "text": txt, "ro": dict(ro)})
@@ -704,13 +724,46 @@ def run_in(ctx, tier, run_dir):
     model = core.run_model([l for c in cases for l in model_lines(c)])
     impl_cases = [impl_lines(c, model.get(c["id"], ""), run_dir) for c in cases]
     impl = core.run_impl_parallel(impl_cases)
+    # a case that lost its machine under machine load (watchdog timeout, harness abort because a
+    # thread could not be spawned, and then library(csv) missing on the fresh machine for the rest
+    # of the case) is run again, alone and sequentially, before it is judged
+    flaky = [ls for ls in impl_cases if any(transient(impl.get(core.line_id(l), "missing")) for l in ls)]
+    retried = len(flaky)
+    for ls in flaky[:500]:
+        impl.update(core.run_impl(ls))
+    # confirmation pass: every case that is about to be reported is run a second time and judged on
+    # the second run (the library itself swallows the harness watchdog's interrupt in
+    # `catch(number_chars(R, R0), _, R = R0)`, so under machine load a field can be typed as text
+    # without any visible sign in the answer; a defect of the library reproduces, that does not)
+    verdict = {c["id"]: judge(c, impl, model) for c in cases}
+    # (not needed where the written text is exactly what the model of the present code predicts:
+    # the two open writer defects; no accident of load produces that text)
+    exact = ("string-field-written-in-list-syntax", "write-fails-on-frame-without-rows")
+    bad = [c for c in cases if any(sig.get("defect") not in exact for _, sig, _ in verdict[c["id"]])]
+    not_reproduced = 0
+    if bad and rep is None:
+        again = [impl_lines(c, model.get(c["id"], ""), run_dir) for c in bad]
+        if len(again) > 60:
+            impl2 = core.run_impl_parallel(again, jobs=6)
+        else:
+            impl2 = {}
+            for ls in again:
+                impl2.update(core.run_impl(ls))
+        for ls in again:
+            if any(transient(impl2.get(core.line_id(l), "missing")) for l in ls):
+                impl2.update(core.run_impl(ls))
+        impl.update(impl2)
+        for c in bad:
+            verdict[c["id"]] = judge(c, impl, model)
+            if not verdict[c["id"]]:
+                not_reproduced += 1
     findings, agree = [], 0
     distinct = set()
     hist = {"rt": 0, "raw": 0}
     gens, wclasses, wf_n, rt_ok, raw_fail, raw_ok = {}, {}, 0, 0, 0, 0
     keep = ("kind", "gen", "h", "rows", "wo", "ro", "text", "wo_items", "ro_items")
     for c in cases:
-        res = judge(c, impl, model)
+        res = verdict[c["id"]]
         hist[c["kind"]] += 1
         if c["kind"] == "rt":
             gens[c.get("gen", "?")] = gens.get(c.get("gen", "?"), 0) + 1
@@ -762,6 +815,8 @@ def run_in(ctx, tier, run_dir):
         "frames_satisfying_theorem_hypotheses": wf_n,
         "raw_texts_rejected_by_reader": raw_fail,
         "raw_texts_accepted_by_reader": raw_ok,
+        "retried_after_lost_machine": retried,
+        "confirmation_pass": {"cases_rerun": len(bad) if rep is None else 0, "not_reproduced": not_reproduced},
         "float_pool": len(pool),
         "float_pool_dropped": dropped,
         "exhaustive": False,
